@@ -1,6 +1,7 @@
 package core
 
 import (
+	"bytes"
 	"encoding/json"
 	"fmt"
 	"os"
@@ -455,4 +456,59 @@ func Minimise(tape []uint32, fails func([]uint32) bool) []uint32 {
 		}
 	}
 	return trim(cur)
+}
+
+var roleRe = regexp.MustCompile(`transport\.\(\*(?:wsConnection|sseConnection|multipartResponseAggregator)\)\.([A-Za-z]+)|transport\.(newMultipartResponseAggregator)`)
+
+// GoroutineRole names the calling goroutine by the outermost transport-connection method on its
+// stack (run, init, subscribe, closeOnCancel, keepAlive, ping, keepAlivePongOnly, ...), or
+// "other". Used to give parked items of anonymous goroutines a canonical identity.
+func GoroutineRole() string {
+	r, _ := GoroutineRoleID()
+	return r
+}
+
+var gidRe = regexp.MustCompile(`^goroutine (\d+) `)
+
+// GoroutineRoleID also returns the runtime id of the calling goroutine.
+func GoroutineRoleID() (string, string) {
+	buf := make([]byte, 16384)
+	buf = buf[:runtime.Stack(buf, false)]
+	gid := ""
+	if g := gidRe.FindSubmatch(buf); g != nil {
+		gid = string(g[1])
+	}
+	// the trailing "created by ...run in goroutine N" line names the parent, not this goroutine
+	if i := bytes.Index(buf, []byte("\ncreated by ")); i >= 0 {
+		buf = buf[:i]
+	}
+	m := roleRe.FindAllSubmatch(buf, -1)
+	if len(m) == 0 {
+		return "other", gid
+	}
+	last := m[len(m)-1]
+	if len(last[1]) > 0 {
+		return string(last[1]), gid
+	}
+	return string(last[2]), gid
+}
+
+// ReleaseNext releases the first enabled parked item in canonical order (lock requests only
+// while their mutex is free) with the decision produced by dec, and reports whether it did.
+func (w *World) ReleaseNext(dec func(it *Item) any) bool {
+	for _, it := range w.Parked() {
+		if it.Kind == "lock" {
+			if free, ok := it.Info.(func() bool); ok && !free() {
+				continue
+			}
+		}
+		w.Release(it, dec(it))
+		return true
+	}
+	return false
+}
+
+// IsTickerRole reports whether a role is one of gqlgen's ticker goroutines.
+func IsTickerRole(r string) bool {
+	return r == "keepAlive" || r == "keepAlivePongOnly" || r == "ping" || r == "newMultipartResponseAggregator"
 }
